@@ -286,6 +286,12 @@ func specSort(t string) string {
 		return "(Array Int Loc)"
 	case "seqseq":
 		return "(Seq (Seq Int))"
+	case "ifaceset":
+		return "(Array Iface Bool)"
+	case "ifacemap":
+		return "(Array Iface Iface)"
+	case "locset":
+		return "(Array Loc Bool)"
 	}
 	panic(fmt.Errorf("unknown spec type %q", t))
 }
